@@ -92,6 +92,8 @@ pub struct Sim {
     pub fault: FaultPlan,
     /// keep payloads of writes in the log (needed for crash enumeration)
     pub keep_payload: bool,
+    /// a write that would extend the file beyond this fails (ENOSPC); the simulated file is dense
+    pub max_file_len: usize,
 }
 
 impl Sim {
@@ -106,6 +108,7 @@ impl Sim {
             seq: 0,
             fault: FaultPlan::default(),
             keep_payload: true,
+            max_file_len: 1 << 30,
         }))
     }
 
@@ -128,9 +131,14 @@ impl Sim {
     /// apply the effect of request `id` to the volatile file and complete it
     pub fn complete(&mut self, id: usize) {
         assert!(self.reqs[id].complete_seq.is_none(), "request completed twice");
-        let fail = self.should_fail(id, &self.reqs[id].kind);
+        let mut fail = self.should_fail(id, &self.reqs[id].kind);
         let dev = self.reqs[id].dev;
-        let off = self.reqs[id].off as usize;
+        if let Kind::Write { data } = &self.reqs[id].kind {
+            if self.reqs[id].off.saturating_add(data.len() as u64) > self.max_file_len as u64 {
+                fail = true; // no space left on the (simulated) device
+            }
+        }
+        let off = self.reqs[id].off.min(usize::MAX as u64 / 2) as usize;
         let out: Result<Vec<u8>, ()> = if fail {
             Err(())
         } else {
